@@ -17,6 +17,7 @@ import (
 // no re-acquisition of a mutex held on the same path.
 func lockPairing(c *core.Ctx, lc *core.LockCache, rule string, fns []*ssa.Function) {
 	reentrantAcquire(c, lc, rule, fns)
+	writesUnderReadLock(c, lc, rule, fns)
 	for _, fn := range fns {
 		lf := lc.Get(fn)
 		if lf.Ops == 0 {
@@ -454,22 +455,37 @@ func isSliceType(t types.Type) bool {
 // self-deadlocks at once; sync.RWMutex read locks deadlock as soon as a writer
 // is waiting between the two acquisitions.  Only failures are recorded.
 func reentrantAcquire(c *core.Ctx, lc *core.LockCache, rule string, fns []*ssa.Function) {
-	// lock acquisitions of a method on its own receiver
-	acquires := func(g *ssa.Function) []core.LockClass {
+	// lock acquisitions of a method on its own receiver, directly or through the
+	// methods of the same object it calls (Send -> closeWith -> Lock)
+	var acquiresDepth func(g *ssa.Function, depth int, seen map[*ssa.Function]bool) []core.LockClass
+	acquiresDepth = func(g *ssa.Function, depth int, seen map[*ssa.Function]bool) []core.LockClass {
 		var out []core.LockClass
-		if g == nil || len(g.Blocks) == 0 || g.Signature.Recv() == nil || len(g.Params) == 0 {
+		if g == nil || len(g.Blocks) == 0 || g.Signature.Recv() == nil || len(g.Params) == 0 || seen[g] || depth > 3 {
 			return out
 		}
+		seen[g] = true
 		for _, call := range core.Calls(g) {
-			op, ok := core.LockOpOf(call)
-			if !ok || (op.Kind != core.OpLock && op.Kind != core.OpRLock) {
+			if op, ok := core.LockOpOf(call); ok {
+				if (op.Kind == core.OpLock || op.Kind == core.OpRLock) && core.RootOf(call.Common().Args[0]) == ssa.Value(g.Params[0]) {
+					out = append(out, op.Class)
+				}
+				continue
+			}
+			if _, plain := call.(*ssa.Call); !plain {
+				continue // go / defer: not on this call's stack while the lock is held … defer is, but runs at exit
+			}
+			h := core.StaticCallee(call)
+			if h == nil || !inRepo(h) || h.Signature.Recv() == nil || len(call.Common().Args) == 0 {
 				continue
 			}
 			if core.RootOf(call.Common().Args[0]) == ssa.Value(g.Params[0]) {
-				out = append(out, op.Class)
+				out = append(out, acquiresDepth(h, depth+1, seen)...)
 			}
 		}
 		return out
+	}
+	acquires := func(g *ssa.Function) []core.LockClass {
+		return acquiresDepth(g, 0, map[*ssa.Function]bool{})
 	}
 	for _, fn := range fns {
 		lf := lc.Get(fn)
@@ -509,4 +525,72 @@ func reentrantAcquire(c *core.Ctx, lc *core.LockCache, rule string, fns []*ssa.F
 			}
 		}
 	}
+}
+
+// writesUnderReadLock: a field of a struct (a map entry, a slice element, the
+// field itself) is written while a read-write mutex of that same struct is held
+// in read mode only: readers run concurrently, so two such writers race
+// (concurrent map writes abort the process).  Only failures are recorded.
+func writesUnderReadLock(c *core.Ctx, lc *core.LockCache, rule string, fns []*ssa.Function) {
+	for _, fn := range fns {
+		lf := lc.Get(fn)
+		if lf.Ops == 0 {
+			continue
+		}
+		n := 0
+		for _, b := range fn.Blocks {
+			for _, in := range b.Instrs {
+				var target ssa.Value
+				switch x := in.(type) {
+				case *ssa.MapUpdate:
+					target = x.Map
+				case *ssa.Store:
+					target = x.Addr
+				case *ssa.Call:
+					if bi, ok := x.Call.Value.(*ssa.Builtin); ok && bi.Name() == "delete" && len(x.Call.Args) == 2 {
+						target = x.Call.Args[0]
+					}
+				}
+				if target == nil {
+					continue
+				}
+				p := core.AccessPath(target)
+				if len(p.Fields) == 0 {
+					continue
+				}
+				if p.Root == nil {
+					continue
+				}
+				owner := core.OwnerOfType(p.Root.Type())
+				if owner == "" {
+					continue
+				}
+				for class := range lf.MayHeld(in) {
+					if class.Owner != owner {
+						continue
+					}
+					held, _ := lf.HeldAt(in, class, false)
+					excl, _ := lf.HeldAt(in, class, true)
+					if held && !excl && isFieldOfSameObject(fn, in, target, class) {
+						n++
+						c.Fail(rule, fmt.Sprintf("write-under-rlock@%s#%d", core.FuncKey(fn), n), in.Pos(),
+							fmt.Sprintf("%s is written while %s is held in read mode only: other readers (and other such writers) run at the same time; for a map that is a fatal 'concurrent map writes'", p.String(), class))
+					}
+				}
+			}
+		}
+	}
+}
+
+// isFieldOfSameObject: the written field belongs to the object whose mutex is held
+// (the lock was taken on the same root value).
+func isFieldOfSameObject(fn *ssa.Function, at ssa.Instruction, target ssa.Value, class core.LockClass) bool {
+	root := core.RootOf(target)
+	for _, call := range core.Calls(fn) {
+		op, ok := core.LockOpOf(call)
+		if ok && op.Class == class && op.Kind == core.OpRLock && core.RootOf(call.Common().Args[0]) == root {
+			return true
+		}
+	}
+	return false
 }
